@@ -46,7 +46,7 @@ PROBES = ['server:after-banner', 'server:after-command', 'server:mid-line',
           'client:data', 'client:eod', 'client:quit', 'client:starttls',
           'client:tls-immediately', 'client:trickle', 'client:partial-reply',
           'client:pipe', 'client:pipe-slow', 'client:http',
-          'client:http-body-stall', 'client:lmtp',
+          'client:http-body-stall', 'client:http-trickle', 'client:lmtp',
           'client:reuse',
           'client:idle-partial', 'server:partial-line-behind-command']
 STATES_MEASURE = 'distinct (side, relay kind, stage, stall shape, pipelining) tuples'
@@ -368,7 +368,8 @@ def _client(world, scn, result):
         world.probe('client:http')
         a = dict(act)
         if shape == 'trickle':
-            a = {'act': 'partial'}
+            a = {'act': 'trickle', 'gap': scn['gap']}
+            world.probe('client:http-trickle')
         if scn.get('http_body_stall') and stage != 'connect':
             # complete status line and headers, silence inside the body; a
             # second attempt on the same bounded pool must not be held by
